@@ -119,11 +119,11 @@ Theorem C05_db_layers_independent : forall os d id probes,
 Proof. exact l_view_frame. Qed.
 Print Assumptions C05_db_layers_independent.
 
-(* Opening never reuses the id of a live layer, and the new layer shows the filesystem of its own TOC. *)
+(* Opening never reuses the id of a live layer, and the new layer shows exactly what a database holding only this layer
+   shows (its own TOC, or the bare root when the TOC is rejected). *)
 Theorem C05_db_open_fresh : forall d cands toc c, pick_id d cands 100 = Some c ->
   l_find c d = None /\
-  l_view (l_step d (LOpen cands toc)) c =
-    (fun probes => match db_build toc with Some _ => view_db toc probes | None => l_view [(c, d_init)] c probes end).
+  l_view (l_step d (LOpen cands toc)) c = l_view [(c, match db_build toc with Some s => s | None => d_init end)] c.
 Proof. exact l_open_fresh. Qed.
 Print Assumptions C05_db_open_fresh.
 
